@@ -196,7 +196,8 @@ def crash_signature(stderr):
     import re
     m = re.search(r"([\w./+-]+):(\d+): .*Assertion `(.*)' failed", stderr)
     if m:
-        return 'assert %s:%s' % (os.path.basename(m.group(1)), m.group(2))
+        # the assertion's text identifies it; the line number moves whenever the file is edited
+        return 'assert %s `%s`' % (os.path.basename(m.group(1)), re.sub(r'\s+', ' ', m.group(3))[:70])
     kind = None
     m = re.search(r'ERROR: AddressSanitizer: ([\w-]+)', stderr)
     if m:
